@@ -73,6 +73,14 @@ EDGE_LINES = [
     b"OK\nOK\nOK\n", b"list_OK\nlist_OK\nOK\n", b"list_OK\nOK\n", b"a: b\nACK [5@0] {} x\n", b"OK", b"list_OK", b"ACK [5@0] {} x", b"a: b", b"binary: 3", b"binary: 3\n", b"binary: 3\nabc",
 ]
 
+# rejected lines longer than 64 / 128 / 256 bytes with an invalid byte, or a multi-byte character, at every offset around that length
+# (error paths that quote or shorten the offending line)
+for _thr in (16, 32, 64, 128, 256):
+    for _off in range(_thr - 4, _thr + 2):
+        EDGE_LINES.append(b"a: " + b"x" * (_off - 3) + b"\xff" + b"y" * 8 + b"\nOK\n")
+        EDGE_LINES.append(b"x" * _off + "\u00e9".encode() + b"yyyy\nOK\n")
+        EDGE_LINES.append(b"x" * _off + "\U0001f3b5".encode() + b" no colon\n")
+
 GREETINGS = [
     b"OK MPD 0.23.5\n", b"OK MPD 0.21.11\n", b"OK MPD x\n", b"OK MPD 0.24 beta \xc3\xa9\n", b"OK MPD  \n", b"OK MPD 0.23.5\r\n", b"OK MPD " + b"9" * 5000 + b"\n",
     b"foobar\n", b"OK MPD \n", b"OK MPD 0.2\xff3\n", b"ok mpd 0.23.5\n", b"OK  MPD 0.23.5\n", b"\n", b"ACK [5@0] {} x\n", b"OK\n", b"OK MPD 0.23\xc3\n", b"OK MPD\n", b"OK MPD 0\x00.1\n",
@@ -80,6 +88,10 @@ GREETINGS = [
     b"OK MPD 0.24~\xce\xb21\n", b"OK MPD 0.24.4-\xc3\xa9\xe2\x86\x92\xf0\x9f\x8e\xb5~git\n", b"OK MPD \xf0\x9f\x8e\xb5\n", b"OK MPD 0.24 \xf0\x9f\x8e",
 ]
 
+for _thr in (64, 128):
+    for _off in range(_thr - 4, _thr + 2):
+        GREETINGS.append(b"OK MPD " + b"9" * (_off - 7) + b"\xff" + b"1\n")
+        GREETINGS.append(b"foo" + b"x" * (_off - 3) + "\u00e9".encode() + b"zz\n")
 
 # ---- canonical digest of projected outcomes (twin of harness/src/wire.rs::canon), used for large streams
 def fnv(b):
